@@ -177,7 +177,7 @@ type hold[T any] struct {
 
 func TestPropE2EActions(t *testing.T) {
 	ev.Check(t, func(rt *rapid.T) {
-		switch rapid.SampledFrom([]string{"redirect", "direct", "headers", "headers", "headers", "rewrite", "rewrite", "timeout", "retry", "retry", "retry", "retry-connect"}).Draw(rt, "scenario") {
+		switch rapid.SampledFrom([]string{"redirect", "direct", "headers", "headers", "headers", "rewrite", "rewrite", "timeout", "retry", "retry", "retry", "retry-connect", "retry-global-timeout"}).Draw(rt, "scenario") {
 		case "redirect":
 			redirectCase(rt)
 		case "direct":
@@ -192,6 +192,8 @@ func TestPropE2EActions(t *testing.T) {
 			retryCase(rt)
 		case "retry-connect":
 			retryConnectCase(rt)
+		case "retry-global-timeout":
+			retryGlobalTimeoutCase(rt)
 		}
 	})
 }
@@ -918,3 +920,44 @@ func retryConnectCase(rt *rapid.T) {
 
 var _ = sort.Strings
 var _ = atomic.AddInt32
+
+
+// retryGlobalTimeoutCase: the route's global timeout bounds the whole request also when attempts are retried.
+// Every host stalls, each attempt ends by its per-try timeout and is retried; the budget is large enough
+// that the attempts alone would take at least global + 250 ms. The client must be answered by the global
+// timeout (band: not before it, not later than 200 ms after it; a miss is re-measured twice).
+func retryGlobalTimeoutCase(rt *rapid.T) {
+	global := time.Duration(rapid.SampledFrom([]int{150, 200}).Draw(rt, "globalMs")) * time.Millisecond
+	perTry := time.Duration(rapid.SampledFrom([]int{90, 110}).Draw(rt, "perTryMs")) * time.Millisecond
+	retries := rapid.SampledFrom([]uint32{4, 5}).Draw(rt, "numRetries")
+	nHosts := rapid.IntRange(1, 3).Draw(rt, "hosts")
+	desc := fmt.Sprintf("Http1: route timeout %v, retry_on num_retries=%d retry_timeout=%v, %d stalled host(s)", global, retries, perTry, nHosts)
+	ev.Case(partE2E, true, []byte("retry-global-timeout|"+desc), func() interface{} { return desc }, "kind:retry-global-timeout")
+	measure := func() (ok bool, el time.Duration, detail string) {
+		ups := newUpstreams(nHosts, func(n int, r *seenReq) upAction { return upAction{Kind: "reply", Delay: 2600 * time.Millisecond, Body: "late"} })
+		defer ups.Close()
+		o := mesh.Opts{Down: "Http1", Up: "Http1", Timeout: global, Hosts: ups.addrs(),
+			Retry: &v2.RetryPolicy{RetryPolicyConfig: v2.RetryPolicyConfig{RetryOn: true, NumRetries: retries}, RetryTimeout: perTry}}
+		cs, err := mesh.NewCaseBound(o)
+		if err != nil {
+			rt.Skip("rig: " + err.Error())
+		}
+		defer cs.Close()
+		res := do1(cs.Addr, "GET", "/rt", "h.example", nil, waitDeadline)
+		if res.Err != nil {
+			return false, res.Elapsed, "no response: " + res.Err.Error()
+		}
+		detail = fmt.Sprintf("status %d after %v, %d attempt(s) reached the hosts", res.Status, res.Elapsed, len(ups.Log()))
+		return res.Elapsed >= global-5*time.Millisecond && res.Elapsed <= global+200*time.Millisecond, res.Elapsed, detail
+	}
+	var el time.Duration
+	var detail string
+	for try := 0; try < 3; try++ {
+		var ok bool
+		if ok, el, detail = measure(); ok {
+			return
+		}
+		ev.Class(partE2E, "timeout:remeasured")
+	}
+	fail(rt, "timeout/global-timeout-does-not-bound-retried-request", "%s: the client was answered after %v (%s), three times; the global timeout must complete the request at %v", desc, el, detail, global)
+}
